@@ -69,9 +69,10 @@ def check(ctx):
     ctx.require(td_dest and hf_dest, 'R07.1: --trash-dir / --home-fallback not declared')
 
     def under(n, dest, pol):
-        return any(all(is_option_value(x, dest) for x in flat(c)) and p == pol
-                   for c, p, a in [(unwrap_not(cc, pp) + (aa,)) for cc, pp, aa in
-                                   guards(b, n.id)])
+        # (a dominating guard, or -- when the candidate is produced by a generator that
+        # was selected under the option and consumed later -- every consistent path)
+        return established(b, n.id, lambda c, p: p == pol and bool(flat(c)) and
+                           all(is_option_value(x, dest) for x in flat(c)))
     rows = []
     for n, a in cands:
         kind = dir_kind(a.fields['trash_dir_path'])
